@@ -201,6 +201,18 @@ def run(ctx: Ctx) -> None:
     loops = [n for n in own_nodes(unsub.node) if isinstance(n, ast.For)]
     oku = len(loops) == 1 and {norm(loops[0].iter)} == lists and any(isinstance(c, ast.Call) and isinstance(c.func, ast.Name) and c.func.id == norm(loops[0].target) for b in loops[0].body for c in ast.walk(b))
     ctx.ob("C17.R4", unsub, "unsubscribe calls every retained remover", oku, "")
+    # the slot that unsub cancels always holds the task started last: it is written only where a start task is
+    # created (a completion callback that clears it would wipe a NEWER task started meanwhile)
+    slot_writes = []
+    for fnn in ctx.repo.funcs_in("client"):
+        if fnn.qualname.startswith("APIClient.subscribe_voice_assistant"):
+            for x in own_nodes(fnn.node):
+                if isinstance(x, (ast.Assign, ast.AnnAssign)):
+                    tg = x.targets if isinstance(x, ast.Assign) else [x.target]
+                    if any(isinstance(t, ast.Name) and t.id == "start_task" for t in tg):
+                        slot_writes.append((fnn, x))
+    bad_sw = [(fnn.qualname, norm(x)[:50]) for fnn, x in slot_writes if not (fnn.qualname == "APIClient.subscribe_voice_assistant" and (x.value is None or (isinstance(x.value, ast.Constant) and x.value.value is None))) and not (isinstance(x.value, ast.Call) and norm(x.value.func).split(".")[-1] in ("create_eager_task", "create_task", "ensure_future"))]
+    ctx.ob("C17.R4", sva, "the pending-start slot is only written where a start task is created", not bad_sw and len(slot_writes) >= 2, f"{bad_sw}: with two overlapping start requests the slot would no longer hold the running task and unsub() could not cancel it")
     cancels = [c for c in own_nodes(unsub.node) if isinstance(c, ast.Call) and isinstance(c.func, ast.Attribute) and c.func.attr == "cancel" and norm(c.func.value) == "start_task"]
     ctx.ob("C17.R4", unsub, "unsubscribe cancels a pending start task", len(cancels) == 1, "")
     us = [c for c in own_nodes(unsub.node) if isinstance(c, ast.Call) and norm(c.func).endswith("send_message") and c.args and isinstance(c.args[0], ast.Call)]
